@@ -125,6 +125,12 @@ Theorem C13_streaming_restart : forall {C} (stream : nat -> C) (n start : Z) (k 
   skipn (Z.to_nat start) (s_outputs stream n (Z.to_nat start + k) (s_init n 0)).
 Proof. exact @streaming_restart. Qed.
 
+(* a streaming sampler constructed at round `start` and sampled k times has made exactly
+   (start + k) * n calls of next() on the client stream (never more), and is at round start + k *)
+Theorem C13_stream_position : forall {C} (stream : nat -> C) (n start : Z) (k : nat),
+  s_after stream n k (s_init n start) = (((Z.to_nat start + k) * Z.to_nat n)%nat, start + Z.of_nat k).
+Proof. exact @stream_position. Qed.
+
 (* each of its rounds takes the next n stream items with keys split(PRNGKey(round), n) *)
 Theorem C13_streaming_rounds : forall {C} (stream : nat -> C) (n start : Z) (k : nat),
   s_outputs stream n k (s_init n start) =
@@ -154,4 +160,5 @@ Print Assumptions C13_keys_prefix_free.
 Print Assumptions C13_run_model_is_theorem_model.
 Print Assumptions C13_translated_is_model.
 Print Assumptions C13_streaming_restart.
+Print Assumptions C13_stream_position.
 Print Assumptions C13_streaming_rounds.
